@@ -38,6 +38,31 @@ Definition ns0_prefixes (root : string) (l : lang) : bool :=
 (* WBXML_NAMESPACE_SEPARATOR (wbxml_internals.h): the separator handed to XML_ParserCreateNS *)
 Definition NAMESPACE_SEPARATOR : ascii := "|"%char.
 
+(* strrchr(s, c) + 1 when c occurs in s *)
+Fixpoint after_last (c : ascii) (s : string) : option string :=
+  match s with
+  | EmptyString => None
+  | String x r =>
+    match after_last c r with
+    | Some t => Some t
+    | None => if Ascii.eqb x c then Some r else None
+    end
+  end.
+
+(* the root-element test of the scan (after fix 8a5d5ba): the table's root element equals the name, or — for a
+   namespaced name "namespace|local" only — the local part of the table's root element (after its last ':',
+   e.g. o-ex:rights -> rights) equals the local part of the name *)
+Definition root_matches (root : string) (l : lang) : bool :=
+  match l_root l with
+  | None => false
+  | Some elt =>
+    streq elt root ||
+    match after_last NAMESPACE_SEPARATOR root with
+    | Some local => streq (match after_last ":"%char elt with Some e => e | None => elt end) local
+    | None => false
+    end
+  end.
+
 (* wbxml_tables_search_table *)
 Definition search_table (main : list lang) (public_id system_id root : option string) : option lang :=
   match (match public_id with Some p => fst (scan_idx (has_pub_text_ci p) main 0) | None => None end) with
@@ -49,11 +74,11 @@ Definition search_table (main : list lang) (public_id system_id root : option st
       match root with
       | None => None
       | Some r =>
-        (* index = 0; the namespace scan runs only when the root contains '|' and leaves index where it stopped *)
-        let '(found, index) := if str_has NAMESPACE_SEPARATOR r then scan_idx (ns0_prefixes r) main 0 else (None, O) in
+        (* index = 0; the namespace scan runs only when the root contains '|' *)
+        let '(found, _) := if str_has NAMESPACE_SEPARATOR r then scan_idx (ns0_prefixes r) main 0 else (None, O) in
         match found with
         | Some l => Some l
-        | None => fst (scan_idx (has_root r) main index)
+        | None => fst (scan_idx (root_matches r) main 0)      (* index = 0 again (fix 8a5d5ba) *)
         end
       end
     end
@@ -110,45 +135,56 @@ Record header := mk_header {
 Fixpoint take_n {A} (n : nat) (l : list A) : list A :=
   match n, l with S k, x :: r => x :: take_n k r | _, _ => [] end.
 
+(* parse_publicid: first byte 0 -> index form (public_id stays 'unknown'), else numeric *)
+Definition parse_publicid_part (r1 : list N) : pres (N * N * list N) :=
+  match r1 with
+  | [] => PErr P_END_OF_BUFFER
+  | b :: r1' =>
+    if b =? 0 then
+      match mb_read r1' with Ok (i, r) => POk (WBXML_PUBLIC_ID_UNKNOWN, i, r) | Err e => PErr (perr_of e) end
+    else
+      match mb_read r1 with Ok (p, r) => POk (p, NO_INDEX, r) | Err e => PErr (perr_of e) end
+  end.
+
+Definition default_charset (meta_charset : N) : N := if meta_charset =? 0 then CHARSET_UTF_8 else meta_charset.
+
+(* parse_charset (not called for version 1.0 = byte 0) followed by the "Check charset" default *)
+Definition parse_charset_part (version meta_charset : N) (r2 : list N) : pres (N * list N) :=
+  if version =? 0 then POk (default_charset meta_charset, r2)
+  else match mb_read r2 with
+       | Err e => PErr (perr_of e)
+       | Ok (c, r) =>
+         let c' := if c =? 0 then default_charset meta_charset else c in
+         if charset_known c' then POk (if c' =? 0 then default_charset meta_charset else c', r)
+         else PErr P_CHARSET_NOT_FOUND
+       end.
+
+(* parse_strtbl *)
+Definition parse_strtbl_part (version public_id index charset : N) (r3 : list N) : pres header :=
+  match mb_read r3 with
+  | Err _ => PErr P_END_OF_BUFFER
+  | Ok (len, r4) =>
+    if len =? 0 then POk (mk_header version public_id index charset None 0 r4)
+    else if N.of_nat (List.length r4) <? len then PErr P_STRTBL_LENGTH
+    else
+      let st := take_n (N.to_nat len) r4 in
+      let st' := if last st 1 =? 0 then st else st ++ [0; 0; 0; 0] in
+      POk (mk_header version public_id index charset (Some st') len (skipn (N.to_nat len) r4))
+  end.
+
 (* the header part of wbxml_parser_parse: parse_version, parse_publicid, forced override, parse_charset
    (not for version 1.0 = byte 0), default charset, parse_strtbl *)
 Definition parse_header (main : list lang) (forced meta_charset : N) (doc : list N) : pres header :=
   match doc with
   | [] => PErr P_EMPTY_WBXML
   | version :: r1 =>
-    match r1 with
-    | [] => PErr P_END_OF_BUFFER
-    | b :: r1' =>
-      let pid := if b =? 0 then
-                   match mb_read r1' with Ok (i, r) => POk (WBXML_PUBLIC_ID_UNKNOWN, i, r) | Err e => PErr (perr_of e) end
-                 else
-                   match mb_read r1 with Ok (p, r) => POk (p, NO_INDEX, r) | Err e => PErr (perr_of e) end in
-      match pid with
+    match parse_publicid_part r1 with
+    | PErr e => PErr e
+    | POk (public_id0, index, r2) =>
+      let public_id := if forced =? WBXML_LANG_UNKNOWN then public_id0 else get_wbxml_publicid main forced in
+      match parse_charset_part version meta_charset r2 with
       | PErr e => PErr e
-      | POk (public_id0, index, r2) =>
-        let public_id := if forced =? WBXML_LANG_UNKNOWN then public_id0 else get_wbxml_publicid main forced in
-        let cs := if version =? 0 then POk (0, r2)
-                  else match mb_read r2 with
-                       | Err e => PErr (perr_of e)
-                       | Ok (c, r) =>
-                         let c' := if c =? 0 then (if meta_charset =? 0 then CHARSET_UTF_8 else meta_charset) else c in
-                         if charset_known c' then POk (c', r) else PErr P_CHARSET_NOT_FOUND
-                       end in
-        match cs with
-        | PErr e => PErr e
-        | POk (charset0, r3) =>
-          let charset := if charset0 =? 0 then (if meta_charset =? 0 then CHARSET_UTF_8 else meta_charset) else charset0 in
-          match mb_read r3 with
-          | Err _ => PErr P_END_OF_BUFFER
-          | Ok (len, r4) =>
-            if len =? 0 then POk (mk_header version public_id index charset None 0 r4)
-            else if N.of_nat (List.length r4) <? len then PErr P_STRTBL_LENGTH
-            else
-              let st := take_n (N.to_nat len) r4 in
-              let st' := if last st 1 =? 0 then st else st ++ [0; 0; 0; 0] in
-              POk (mk_header version public_id index charset (Some st') len (skipn (N.to_nat len) r4))
-          end
-        end
+      | POk (charset, r3) => parse_strtbl_part version public_id index charset r3
       end
     end
   end.
